@@ -248,12 +248,19 @@ class NDNApp:
             implicit_sha256 = b''
         node = self._int_tree.setdefault(node_name, InterestTreeNode())
         node.append_interest(future, interest_param, implicit_sha256)
+        # The lifetime counts from now, not from the moment the caller starts awaiting the result
+        lifetime = 100 if interest_param.lifetime is None else interest_param.lifetime
+        deadline = timestamp() + lifetime
         self.face.send(raw_interest)
-        return self._wait_for_data(future, interest_param.lifetime, node_name, node, validator, need_raw_packet)
+        return self._wait_for_data(future, deadline, node_name, node, validator, need_raw_packet)
 
-    async def _wait_for_data(self, future: aio.Future, lifetime: int, node_name: FormalName,
+    async def _wait_for_data(self, future: aio.Future, deadline: int, node_name: FormalName,
                              node: InterestTreeNode, validator: Validator, need_raw_packet: bool):
-        lifetime = 100 if lifetime is None else lifetime
+        lifetime = deadline - timestamp()
+        if lifetime <= 0:
+            # The application sent the Interest, did something else and only now fetches the result,
+            # which should be there already. Not considered an error.
+            lifetime = 100
         try:
             data_name, meta_info, content, sig, raw_packet = await aio.wait_for(future, timeout=lifetime/1000.0)
         except TimeoutError:
